@@ -122,6 +122,17 @@ A2U = dict(topic="o.a2", meta="user", ttl=TTL_T)
 A2C = dict(topic="o.a2", meta="collide", context="other")
 A3Z = dict(topic="o.a3", context="zero", meta="user")
 
+
+def handler_own():
+    """C15: the closure returns one of the handler's own earlier output frames (`.head` of its own topic):
+    that is not a new return value, but the explicit appends of the invocation are still emitted"""
+    d = handler(ret="none", appends=[A1])
+    d["script"] = d["script"].replace("    null\n", "    .head o.a1\n")
+    assert ".head o.a1" in d["script"]
+    return d
+
+
+
 HANDLERS = {
     # C14: echo with a counter in $env, the three resume modes
     "h_echo": handler(),
@@ -141,6 +152,8 @@ HANDLERS = {
     "h_none": handler(ret="none", appends=[A1]),
     "h_silent": handler(ret="none"),
     "h_suffix": handler(suffix=".res", ttl=TTL_T),
+    "h_ttl": handler(ttl=TTL_T),
+    "h_own": handler_own(),
     "h_suffix_a": handler(suffix=".res", appends=[A2U]),
     "h_fail_before": handler(fail="before", appends=[A1]),
     "h_fail_mid": handler(fail="mid", appends=[A1, A2U]),
